@@ -280,6 +280,21 @@ class VSweep(Monitor):
                 self.snap[i] = ["snapshot_raised", type(e).__name__]
 
     def after(self, sim, op, out):
+        if out[0] == "ok" and self.prop == "C13" and _must_be_fresh(sim, op):
+            c = _container(out[1])
+            if c is not None:
+                sim.oracle_checks += 1
+                for i, v in sim.live():
+                    if i == op["i"]:
+                        continue
+                    if _container(v) is c:
+                        sim.violation(
+                            "C13.result_new",
+                            {"op": op["k"], "class": type(out[1]).__name__, "container": type(c).__name__, "shared_with": type(v).__name__},
+                            op["i"],
+                            "the result of %s carries the very container (%s) that the result of step %s holds" % (op["k"], type(c).__name__, i),
+                        )
+                        break
         for i, v in value_objects(sim):
             if i not in self.snap:
                 continue
@@ -308,6 +323,49 @@ class VSweep(Monitor):
                     op["i"],
                     "pool member %s changed during %s: %r -> %r" % (i, op["k"], was, now),
                 )
+
+
+def _container(v):
+    """The mutable container a result carries (or is): list / ndarray / FractionValue, else None."""
+    import numpy
+
+    from barril.basic.fraction import FractionValue
+
+    u, Curve = _barril()
+    try:
+        if isinstance(v, u.Array):
+            v = v.GetValues()
+        elif isinstance(v, u.FractionScalar):
+            v = v.GetValue()
+    except Exception:
+        return None
+    if isinstance(v, (list, numpy.ndarray, FractionValue)):
+        return v
+    return None
+
+
+def _must_be_fresh(sim, op):
+    """True iff the statement's "results are new objects" obliges this step to hand out a container
+    nobody else holds: arithmetic, ChangingIndex, and conversions to ANOTHER unit (a request for the
+    object's own unit may legitimately answer with the stored container itself)."""
+    from . import model as M
+
+    k = op["k"]
+    if k.startswith(("ar.obj.", "ar.num_", "ar.pow", "fixed.ar.", "fixed.ChangingIndex")):
+        return True
+    unit = None
+    if k in ("cv.GetValues", "cv.GetValue"):
+        unit = sim.last_args[0] if sim.last_args else None
+    elif k.startswith(("cv.CreateCopy.unit", "fixed.CreateCopy.unit")):
+        unit = (sim.last_kw or {}).get("unit")
+    if unit is None:
+        return False
+    tgt = sim.last_target
+    try:
+        own = tgt.GetUnit()
+    except Exception:
+        return False
+    return M.current_spelling(unit) != own
 
 
 def _refers(op, i):
